@@ -32,6 +32,7 @@ def flat_prog(
     n_debug: int = 0,
     mark_roots: bool = True,
     dup_rate: float = 0.0,
+    index_rate: float = 0.0,
 ) -> Dict[str, Any]:
     """A call-only program: every statement is one call of a constructor function, depending on earlier
     sites through positional args / kwargs / activation flags.  Acyclic by construction."""
@@ -65,6 +66,8 @@ def flat_prog(
                     spec["stamp"] = True
             if i in debug_idx:
                 spec["debug"] = True
+            if index_rate and i not in setup_idx and draw(st.floats(0, 1)) < index_rate:
+                spec["kind"], spec["n"] = "tup", 2
             fns[fn] = spec
         # dependencies
         if i in setup_idx:
@@ -83,6 +86,8 @@ def flat_prog(
         for j in deps:
             how = draw(st.sampled_from(list(dep_kinds)))
             e = ["v", f"v{j}"]
+            if fns[body[j]["fn"]].get("kind") == "tup" and body[j]["active"] is None and draw(st.booleans()):
+                e = ["i", e, draw(st.integers(0, 1))]
             if how == "pos":
                 args.append(e)
             elif how == "kw":
